@@ -529,7 +529,7 @@ def _out_units(ctx, in_units_union, allow_broadcast=True, allow_squeeze=True):
 def _with_diagonal(ctx, units):
     """Maybe repeat an un-bracketed plain axis inside one input (diagonal)."""
     cands = [u for u in units if u[0] == "leaf" and not u[2] and u[1][0] == "ax"]
-    if cands and ctx.b(0.12) and not ctx.simple and not getattr(ctx, "flags", {}).get("no_diag"):
+    if cands and ctx.b(0.5 if getattr(ctx, "flags", {}).get("more_diag") else 0.12) and not ctx.simple and not getattr(ctx, "flags", {}).get("no_diag"):
         u = ctx.pick(cands)
         pos = ctx.draw(st.integers(0, len(units)))
         units = list(units)
